@@ -171,6 +171,23 @@ theorem overlap_keeps_earliest_start (now : Int) (s : Store) (old new : Alert)
     simp only [Bool.or_eq_true, Bool.and_eq_true, decide_eq_true_eq, not_or, not_and] at hov
     omega
 
+/-- **refire_after_end_starts_anew.**  A submission that starts at (or after) the
+    very instant the stored alert ended does not overlap it: it is stored as it is,
+    with its own start — the boundary instant belongs to the new episode (a group
+    re-created for it gets a fresh `group_wait`). -/
+theorem refire_after_end_starts_anew (now : Int) (s : Store) (old new : Alert)
+    (hold : lookup s new.labels = some old)
+    (h1 : old.endsAt ≤ new.startsAt) (h2 : new.startsAt ≤ new.endsAt) :
+    putValue now s new = new := by
+  rw [putValue_some now s new old hold]
+  have hov : overlaps old new = false := by
+    unfold overlaps
+    simp only [Bool.or_eq_false_iff, Bool.and_eq_false_iff, decide_eq_false_iff_not]
+    constructor
+    · right; omega
+    · right; omega
+  simp [hov]
+
 /-- **timeout_end_pushed_forward.**  A re-send without `endsAt` of an alert that
     was itself timing out moves the end to receive time + `resolve_timeout`; over
     an alert with an explicit end it never ends earlier than that. -/
